@@ -702,7 +702,16 @@ func (w *simWorld) rpkiCompare(st *rpkiState) {
 			}
 		}
 	}
+	anyCache := false
+	for i := range st.caches {
+		if st.configured[i] {
+			anyCache = true
+		}
+	}
 	for _, fam := range []wFamily{famV4, famV6} {
+		if !anyCache {
+			break // without a configured cache origin validation is not performed at all
+		}
 		glob, err := w.listPaths(api.TableType_TABLE_TYPE_GLOBAL, "", fam, false)
 		if err != nil {
 			continue
